@@ -6,57 +6,14 @@ KINDS = ["POOL/MAX", "POOL/AVERAGE", "POOL/REDUCE_SUM", "CONV", "DEPTHWISE", "EL
 SLICES = ["STRIDED_SLICE", "SPLIT", "SLICE"]
 VAL = ["value_mismatch", "garbage_dependent_output", "gap_uninit_read", "gap_async_uninit_read", "gap_unwritten_output_consumed"]
 FAM = {
- "F01-softmax-slice-input": dict(
-    what="SOFTMAX whose input is a slice view (STRIDED_SLICE/SPLIT output): softmax.py rebuilds its passes from the parent tensor and drops the read offset/shape, so the NPU reads outside the slice (outside the scratch extent / undefined bytes)",
-    ctx=dict(requires_layers=["SOFTMAX"], requires_any=SLICES),
-    sigs={"C02": ["out_of_extent"], "C03": ["uninit_read", "foreign_read", "foreign_tensor_read"], "C04": ["reads_from_divergence", "async_uninit_read", "final_memory_divergence"],
-          "C01": VAL, "C10": VAL}),
- "F02-mean-unit-axis-memcpy": dict(
-    what="MEAN over an axis of extent 1 fed by a slice view is lowered to Memcpy (tflite_graph_optimiser.py:2283); dma_feature_map_if_necessary copies the whole parent tensor, overruns the destination / scratch extent and never writes the real output",
-    ctx=dict(requires_layers=["MEAN"], requires_any=SLICES),
-    sigs={"C02": ["out_of_extent"], "C03": ["unwritten_output_consumed", "uninit_read", "foreign_tensor_read"], "C04": ["final_memory_divergence", "reads_from_divergence"],
-          "C10": ["gap_unwritten_output_consumed", "gap_uninit_read"]}),
- "F02b-mean-unit-axis-drops-rescale": dict(
-    what="MEAN over an axis of extent 1 whose output quantisation differs from its input: the operator is turned into Memcpy / bypassed (tflite_graph_optimiser.py:2283) and the requantisation the reference kernel performs is lost (output bytes are the input bytes)",
-    ctx=dict(requires_layers=["MEAN"], max_layers=8),
-    sigs={"C01": ["value_mismatch"], "C10": ["value_mismatch"]}),
- "F03-reshape-folded-into-producer": dict(
-    what="an operator followed by RESHAPE whose shapes are recomputed after the reshape was bypassed (LUT activations, 2x-upscaling resize steps): the OFM takes the reshaped shape while the IFM registers still describe the original tensor, so elements beyond IFM_WIDTH0/HEIGHT0 are fetched through the unused tile bases",
-    ctx=dict(requires_layers=["RESHAPE"], max_layers=8),
-    sigs={"C02": ["out_of_extent"], "C03": ["uninit_read", "foreign_read", "unwritten_output_consumed", "foreign_tensor_read"], "C04": ["reads_from_divergence", "async_uninit_read", "async_foreign_read", "final_memory_divergence", "inflight_conflict"],
-          "C01": VAL, "C10": VAL + ["stripe_partition_gap", "stripe_box_outside_ofm", "stripe_outside_write_region"]}),
  "F04-resize-bilinear-hpc-blockdep": dict(
     what="RESIZE_BILINEAR with half_pixel_centers: the 2x2 depthwise steps read one row/column more than npu_op.ifm.shape (edge replication through the tile bases); calc_blockdep clips its first-job IFM volume to ifm.shape, misses the overlap with the producer's last OFM block and programs BLOCKDEP too large",
     ctx=dict(requires_layers=["RESIZE_BILINEAR"], max_layers=8, kind_any=["DEPTHWISE"]),
     sigs={"C04": ["async_uninit_read", "async_foreign_read", "reads_from_divergence"], "C10": ["gap_async_uninit_read"]}),
- "F13-reduce-sum-blockdep": dict(
-    what="calc_blockdep treats REDUCE_SUM as if its IFM depth were traversed in ofm-depth (=1) slices and counts non-existent producer blocks (negative block index) as outstanding jobs: after a single-block producer it programs BLOCKDEP=3 although the second REDUCE_SUM block reads the producer's output (softmax lowering: per-row elementwise ops followed by REDUCE_SUM over all rows)",
-    ctx=dict(requires_any=["SOFTMAX"], max_layers=8, kind_any=["POOL/REDUCE_SUM"]),
-    sigs={"C04": ["async_uninit_read", "reads_from_divergence"]}),
- "F15-second-clamp-replaces-first": dict(
-    what="two consecutive clamps (an operator with a fused ReLU-family activation followed by a standalone RELU / RELU6 / RELU_N1_TO_1, or two standalone ones): the later clamp is fused into the producer and replaces the earlier one instead of being intersected with it",
-    ctx=dict(min_count=dict(of=["RELU", "RELU6", "RELU_N1_TO_1", "FUSED_RELU", "FUSED_RELU6", "FUSED_RELU_N1_TO_1"], n=2), max_layers=10),
-    sigs={"C01": ["value_mismatch"], "C10": ["value_mismatch"]}),
- "F16-relu-after-requantise": dict(
-    what="a ReLU-family operator directly after a QUANTIZE (re-quantisation) operator: the clamp is fused into the rescaling pool operation with ACTIVATION_MIN/MAX computed with the output zero point added twice (e.g. RELU6 on scale 0.1597 zp 25 clamps to [50, 88] instead of [25, 63])",
-    ctx=dict(requires_layers=["QUANTIZE"], requires_any=["RELU", "RELU6", "RELU_N1_TO_1"], max_layers=10),
-    sigs={"C01": ["value_mismatch"], "C10": ["value_mismatch"]}),
- "F17-cascade-overfetch-clobbers-rolling-buffer": dict(
-    what="a cascaded consumer with stride > 1 (e.g. AVERAGE_POOL 3x3 stride 3 SAME after a striped CONV_2D): the IFM box of a consumer stripe is over-approximated (end*stride + skirt instead of (end-1)*stride + kernel - pad), so producer stripes are issued further ahead than the rolling buffer (sized for the exact need) can hold and a row is overwritten before its last consumer stripe has read it",
-    ctx=dict(requires_layers=["STRIDE_GE2"], max_layers=12),
-    sigs={"C01": ["value_mismatch"], "C10": ["value_mismatch"]}),
- "F18-relu-after-abs": dict(
-    what="a ReLU-family operator directly after ABS: the clamp is fused into the ABS elementwise operation whose output quantisation is forced to scale 1.0, so ACTIVATION_MAX is computed as 6/1.0 + zero point (e.g. 1) instead of 6/scale + zero point (e.g. 72)",
-    ctx=dict(requires_layers=["ABS"], requires_any=["RELU", "RELU6", "RELU_N1_TO_1"], max_layers=10),
-    sigs={"C01": ["value_mismatch"], "C10": ["value_mismatch"]}),
  "F11b-mean-over-width-only": dict(
     what="MEAN over the W axis only of a tensor with H > 1 (same root cause as F11): the depthwise operator it is lowered to has an OFM depth of H*C while weights and scale records exist for C channels only; values are wrong and the scale/weight fetch runs past the encoded range",
     ctx=dict(requires_layers=["MEAN"], max_layers=12),
     sigs={"C01": ["weight_stream_malformed", "value_mismatch"], "C10": ["weight_stream_malformed", "value_mismatch"], "C08": ["weight_stream_malformed", "scale_record_count"]}),
- "F14-relu-after-lut-activation": dict(
-    what="a ReLU-family operator directly after a table-based activation (TANH / LOGISTIC / HARD_SWISH / LEAKY_RELU): the clamp is fused into the activation operator before that one is converted to a lookup table and the conversion then loses the table (the LUT is still DMAed but the operation runs with a plain clamp), so the activation function is not applied",
-    ctx=dict(requires_any=["RELU", "RELU6", "RELU_N1_TO_1"], requires_any2=["TANH", "LOGISTIC", "HARD_SWISH", "LEAKY_RELU"], max_layers=8),
-    sigs={"C01": ["value_mismatch"], "C10": ["value_mismatch"]}),
  "F09-odd-stripe-nearest-upscale": dict(
     what="a 2x nearest-neighbour upscaling step (RESIZE_NEAREST_NEIGHBOR lowered to pool operations) striped in a cascade with an odd OFM stripe height: IFM_HEIGHT0 is floor(h/2) although ceil(h/2)+ rows are fetched, so the last row comes through an unused tile base (address 0)",
     ctx=dict(requires_layers=["RESIZE_NEAREST_NEIGHBOR"], max_layers=8, kind_any=["POOL/AVERAGE", "DMA", None]),
@@ -85,22 +42,33 @@ FIXED = [
  "fixed: property=C01 36dfbd4 STRIDED_SLICE ; FULLY_CONNECTED: the slice read was moved onto an operator that reads its input flattened, wrong elements were read (findings/FX-slice-then-fully-connected.C01.json)",
  "fixed: property=C10 4c34a7c STRIDED_SLICE/SPLIT along H ; TRANSPOSE_CONV (or nearest resize): the upscaling factor of the stripe was OFM height // height of the whole IFM tensor (0 for a short slice), giving an empty IFM box and wrong values (findings/FX-sliced-transpose-conv-upscaling.C10.json)",
  "fixed: property=C12 3e245fc elementwise operator executed in place over an NPU-subgraph input (produced by a CPU operator) that a later subgraph still reads: CONV_2D(stride 4, CPU) -> MINIMUM(NPU) -> CUSTOM(CPU) ; RELU of the conv output in a second NPU subgraph (findings/F05-inplace-elementwise-shared-input.C12.json)",
+ "fixed: property=C01 36dfbd4 (was known finding F01) SOFTMAX (and any operator that reads its input in another shape) fed by a STRIDED_SLICE/SPLIT view lost the read offset; accesses outside the extent, undefined bytes, wrong values (findings/FX-F01-softmax-slice-input.C02.json)",
+ "fixed: property=C01 77b4a5e (was known findings F14 F15 F18) a RELU-family operator packed into a pass whose operation already had an activation (fused clamp or lookup table lost) or whose output quantisation carries a rescale (ABS, elementwise LEAKY_RELU: clamp quantised with the wrong scale) (findings/FX-F14-relu-after-lut-activation.C10.json, FX-F15-second-clamp-replaces-first.C01.json, FX-F18-relu-after-abs.C01.json)",
+ "fixed: property=C01 7a986b9 (was known finding F16) RELU-family after QUANTIZE: OFM zero point added twice to the activation range of the rescaling average pool (findings/FX-F16-relu-after-requantise.C10.json)",
+ "fixed: property=C04 fdca9c0 BLOCKDEP after a TRANSPOSE (OFM written with swapped strides): calc_blockdep compared producer OFM blocks and consumer IFM blocks by coordinate although the coordinates name different bytes; the consumer could start three blocks early",
+ "fixed: property=C13 b2e2e47 (was known finding F08) RESIZE_NEAREST_NEIGHBOR with align_corners and more than one channel aborted with ValueError (depthwise weight tensor built as [u,u,C,C]) (findings/FX-F08-resize-nn-align-corners.C13.json)",
+ "fixed: property=C04 1047983 (was known finding F13) BLOCKDEP too large in front of REDUCE_SUM (IFM block depth taken as the OFM depth 1): second REDUCE_SUM of a SOFTMAX read the output of its producer early (findings/FX-F13-reduce-sum-blockdep.C04.json)",
+ "fixed: property=C01 cde3b2b (was known finding F15) two stand-alone RELU-family operators in a row were packed into one pass and the last clamp replaced the first",
+ "fixed: property=C03 92fd28e (was known finding F03) LUT activations and resize lowerings recomputed the operator shapes from the tensors after a RESHAPE next to the operator had been bypassed: OFM in the reshaped shape over an IFM described in the original one (wrong elements, accesses outside the tensor, AssertionError in generate_ifm2_broadcast) (findings/FX-F03-reshape-folded-into-producer.C02.json .C03.json .C04.json .C13.json)",
+ "fixed: property=C01 e296b46 (was known finding F02b) MEAN over axes of extent 1 with different input and output quantisation became a plain copy (requantisation lost)",
+ "fixed: property=C01 34f41e3 int32 partial sums of a lowered MEAN written with the OFM zero point and read back with zero point 0 (result off by zero_point*scale/elements)",
+ "fixed: property=C01 3db9822 ADD/SUB rescale factors computed in float32 under NumPy 2 (low 7 bits lost; off by one on rounding boundaries)",
+ "fixed: property=C10 f9e6da2 bottom padding of a stripe of an operator whose OFM is taller than its IFM (fused PAD): rows counted after clipping to the IFM height",
+ "fixed: property=C11 6450512 CPU-resident convolution-like operator without bias written back with an additional -1 input (TRANSPOSE_CONV with four inputs)",
+ "fixed: property=C01 186fbbb RESHAPE of a subgraph input (Memcpy) ; RELU-family: the activation was packed into the DMA pass and never applied",
+ "fixed: property=C10 ec1302a (was known finding F17) IFM box of a stripe with stride > 1 ended at ofm_end*stride + skirt, more than the last window reads; in a cascade the producer ran further ahead than the rolling buffer holds and overwrote unread rows (findings/FX-F17-cascade-overfetch-clobbers-rolling-buffer.C10.json)",
+ "fixed: property=C13 3d0ce8b weights limit check broadcast per-channel zero points of depthwise weights over the wrong axis (MemoryError for many channels, wrong sum)",
+ "fixed: property=C13 cc03b38 RESIZE_BILINEAR half_pixel_centers reading a fused SPLIT/SLICE aborted with IndexError in extract_subgraph",
+ "fixed: property=C02 dd159c1 (was known finding F02) a Memcpy (RESHAPE of a shared tensor, MEAN over unit axes) took over a fused slice read and copied from the start of the whole tensor: accesses outside the destination / scratch extent (findings/FX-F02-mean-unit-axis-memcpy.C02.json)",
+ "fixed: property=C03 37324e6 RELU with differing input and output scaling next to a bypassed RESHAPE: inserted average pool recomputed its shapes from the tensors (same class as 92fd28e)",
+ "fixed: property=C13 766b4ac RESIZE_NEAREST_NEIGHBOR align_corners in front of a bypassed RESHAPE: kernel sized from the depth of the reshaped OFM tensor (same class as 92fd28e)",
+ "fixed: property=C03 0eb36a3 MEAN in front of a bypassed RESHAPE: the int32 partial-sum tensors took the reshaped shape of the OFM tensor, the depthwise convolution described its IFM with it and read undefined bytes (same class as 92fd28e) (findings/FX-mean-behind-bypassed-reshape.C03.json)",
 ]
 EXTRA = [
  dict(id="F07-pad-then-mean", property="C13", status="known",
       signature={"oracle": "internal_exception", "exc_type": "AssertionError", "site": "tensor.py:address_for_coordinate"}, requires_layers=["PAD", "MEAN"],
       what="PAD followed by MEAN over H and W: the explicit padding is fused into the depthwise/pool operator MEAN is lowered to, whose IFM box is then computed for the padded extent and address_for_coordinate asserts",
       example="findings/F07-pad-then-mean.C13.json"),
- dict(id="F08-resize-nn-align-corners", property="C13", status="known",
-      signature={"oracle": "internal_exception", "exc_type": "ValueError", "site": "tflite_graph_optimiser.py:convert_resizenn_ac_to_depthwise_conv"},
-      requires_any=["RESIZE_NEAREST_NEIGHBOR"],
-      what="RESIZE_NEAREST_NEIGHBOR with align_corners and more than one channel: convert_resizenn_ac_to_depthwise_conv reshapes upscale*upscale weight values into a [u,u,C,C] tensor (tflite_graph_optimiser.py:384-404) and numpy raises ValueError",
-      example="findings/F08-resize-nn-align-corners.C13.json"),
- dict(id="F03-reshape-folded-into-producer", property="C13", status="known",
-      signature={"oracle": "internal_exception", "exc_type": "AssertionError", "site": "register_command_stream_generator.py:generate_ifm2_broadcast"},
-      requires_layers=["RESHAPE"],
-      what="same root cause as F03: the binary elementwise operator's IFM2 no longer broadcasts against the reshaped OFM and generate_ifm2_broadcast asserts",
-      example="findings/F03-reshape-folded-into-producer.C13.json"),
  dict(id="F19-non-default-allocator-exceeds-arena-cache", property="C02", status="known",
       signature={"oracle": "fast_scratch_exceeds_arena_cache", "rounding_only": False, "min_schedule_also_exceeds": False},
       requires_any=["OPT_ALLOC_Greedy", "OPT_ALLOC_LinearAlloc"],
